@@ -1,12 +1,13 @@
 (* C07: the hydro task graph make_graph (model of make_hydro_tasks / set_dependencies / reset_hydro_tasks).
    make_graph true = the code with the fix of D2, make_graph false = the pinned commit.
-   - wf (make_graph true Y) for EVERY layout up to 4 x 4 x 4 and all 8 periodicities (512 graphs, including a periodic
-     axis of one subgrid): by evaluation of wf_check inside the kernel (vm_compute) + wf_check_sound [bounded, "partial"];
+   - wf (make_graph true Y) for EVERY layout and periodicity: C07_GraphGen.make_graph_wf (closed form of the task
+     numbering + neighbour arithmetic); re-exported here.  Independently, the boolean wf_check (the checker that the
+     run-time tie evaluates on the dumped REAL tables) accepts all 512 graphs up to 4 x 4 x 4 by evaluation in the kernel;
    - the defect D2 of the pinned commit: with a periodic axis of exactly one subgrid the pair task takes the same lock
      twice, the graph is not well formed, and in the interleaving model that task is never started, for any schedule;
    - the counter protocol lets a thread leave the loop early (number_of_tasks is transiently 0): a concrete schedule. *)
 From Coq Require Import Arith List Bool PeanoNat Lia.
-From CMI Require Import Cxx.C07_Defs Cxx.C07_Base Cxx.C07_Proofs.
+From CMI Require Import Cxx.C07_Defs Cxx.C07_Base Cxx.C07_Proofs Cxx.C07_GraphGen.
 Import ListNotations.
 
 Definition BOUND : nat := 4.
@@ -36,8 +37,8 @@ Proof.
   unfold check_layout in C. apply wf_check_sound; auto.
 Qed.
 
-(* the repaired code: every layout and periodicity up to BOUND^3, no side condition *)
-Theorem make_graph_wf_partial : forall Y,
+(* the bounded statement obtained from the evaluation alone (kept as a cross-check of the general proof) *)
+Lemma make_graph_wf_bounded : forall Y,
   1 <= lnx Y <= BOUND -> 1 <= lny Y <= BOUND -> 1 <= lnz Y <= BOUND -> wf (make_graph true Y).
 Proof.
   intros [x y z px py pz] Hx Hy Hz. cbn [lnx lny lnz lpx lpy lpz] in *.
@@ -119,11 +120,13 @@ Proof. vm_compute. repeat split; reflexivity. Qed.
 (* the hypotheses of the generic theorems are satisfiable; the D2 witness is now well formed, and the same task
    that could never start has a single lock *)
 Example wf_2x2x2_periodic : wf (make_graph true (mkLayout 2 2 2 true true true)).
-Proof. apply make_graph_wf_partial; simpl; unfold BOUND; lia. Qed.
+Proof. apply make_graph_wf; simpl; lia. Qed.
 Example wf_3x1x2_mixed : wf (make_graph true (mkLayout 3 1 2 true false true)).
-Proof. apply make_graph_wf_partial; simpl; unfold BOUND; lia. Qed.
+Proof. apply make_graph_wf; simpl; lia. Qed.
+Example wf_5x7x3_mixed : wf (make_graph true (mkLayout 5 7 3 false true true)).
+Proof. apply make_graph_wf; simpl; lia. Qed.
 Example wf_D2_witness_fixed : wf (make_graph true Y_self).
-Proof. apply make_graph_wf_partial; simpl; unfold BOUND; lia. Qed.
+Proof. apply make_graph_wf; simpl; lia. Qed.
 Example D2_witness_fixed_task : let t := tk (make_graph true Y_self) 1 in
   kind t = GN /\ sub t = 0 /\ other t = Some 0 /\ dep0 t = Some 0 /\ dep1 t = None /\ locks t = [0] /\ touches t = [0; 0]
   /\ locks (tk (make_graph true Y_self) 0) = [0].
